@@ -129,6 +129,20 @@ func (x *c03Interp) assign(fr *c03Frame, st *c03State, e ast.Expr, v *c03V) {
 	case *ast.IndexExpr:
 		for _, ev := range x.eval(fr, st, l.X) {
 			st.event(c03Event{Kind: "store", Node: e, Frame: fr, Target: ev.v, Val: v, Why: "indexed store"})
+			// m[k] = v on a map the path built: the map now holds the entry
+			if _, isMap := info.TypeOf(l.X).Underlying().(*types.Map); isMap && ev.v.K == c03KList && len(ev.v.Keys) == len(ev.v.Elems) {
+				for _, kv := range x.eval(fr, st, l.Index) {
+					nm := *ev.v
+					nm.Keys = append(append([]*c03V{}, ev.v.Keys...), kv.v)
+					nm.Elems = append(append([]*c03V{}, ev.v.Elems...), v)
+					if id, ok := ast.Unparen(l.X).(*ast.Ident); ok {
+						if o, ok := objOf(info, id).(*types.Var); ok {
+							st.vars[o] = &nm
+						}
+					}
+					break
+				}
+			}
 		}
 	default:
 		st.event(c03Event{Kind: "unsupported", Node: e, Frame: fr, Why: "assignment to an unmodelled lvalue"})
